@@ -8,6 +8,7 @@ import (
 	"os"
 	"os/exec"
 	"strings"
+	"sync/atomic"
 	"time"
 )
 
@@ -46,43 +47,93 @@ type Solver struct {
 	noHist     bool
 	Fallbacks  [3]int // fallback verdicts by Result
 	NoFallback bool
+	Restarts   int // solver processes replaced after a watchdog kill or a crash
+	seed       int
+	dead       bool
+	killed     atomic.Bool
 }
 
 // NewSolver starts a solver. kind is "z3", "z3-new" or "cvc5".
 func NewSolver(kind string, ctx *Ctx, timeoutMs int, seed int) (*Solver, error) {
-	var cmd *exec.Cmd
 	switch kind {
-	case "z3", "z3-new":
-		cmd = exec.Command(kind, "-in", "-smt2")
-	case "cvc5":
-		cmd = exec.Command("cvc5", "--incremental", "--lang=smt2", "--produce-models", fmt.Sprintf("--tlimit-per=%d", timeoutMs))
+	case "z3", "z3-new", "cvc5":
 	default:
 		return nil, fmt.Errorf("unknown solver %q", kind)
 	}
+	s := &Solver{Name: kind, ctx: ctx, pr: NewPrinter(), TimeoutMs: timeoutMs, seed: seed}
+	if err := s.spawn(); err != nil {
+		return nil, err
+	}
+	return s, nil
+}
+
+// spawn starts the solver process and sends the options (not part of hist).
+func (s *Solver) spawn() error {
+	var cmd *exec.Cmd
+	if s.Name == "cvc5" {
+		cmd = exec.Command("cvc5", "--incremental", "--lang=smt2", "--produce-models", fmt.Sprintf("--tlimit-per=%d", s.TimeoutMs))
+	} else {
+		cmd = exec.Command(s.Name, "-in", "-smt2")
+	}
 	in, err := cmd.StdinPipe()
 	if err != nil {
-		return nil, err
+		return err
 	}
 	out, err := cmd.StdoutPipe()
 	if err != nil {
-		return nil, err
+		return err
 	}
 	cmd.Stderr = os.Stderr
 	if err := cmd.Start(); err != nil {
-		return nil, err
+		return err
 	}
-	s := &Solver{Name: kind, cmd: cmd, in: in, out: bufio.NewReaderSize(out, 1<<20), ctx: ctx, pr: NewPrinter(), TimeoutMs: timeoutMs}
+	s.cmd, s.in, s.out = cmd, in, bufio.NewReaderSize(out, 1<<20)
+	s.dead = false
+	old := s.noHist
 	s.noHist = true
-	defer func() { s.noHist = false }()
-	if kind != "cvc5" {
+	if s.Name != "cvc5" {
 		s.send("(set-option :produce-models true)")
-		s.send(fmt.Sprintf("(set-option :timeout %d)", timeoutMs))
-		s.send(fmt.Sprintf("(set-option :random-seed %d)", seed))
-		s.send(fmt.Sprintf("(set-option :smt.random_seed %d)", seed))
+		s.send(fmt.Sprintf("(set-option :timeout %d)", s.TimeoutMs))
+		s.send(fmt.Sprintf("(set-option :random-seed %d)", s.seed))
+		s.send(fmt.Sprintf("(set-option :smt.random_seed %d)", s.seed))
 	} else {
 		s.send("(set-logic ALL)")
 	}
-	return s, nil
+	s.noHist = old
+	return nil
+}
+
+// respawn replaces a solver process that died or was killed by the watchdog
+// by a fresh one in the same assertion state (hist replayed).
+func (s *Solver) respawn() {
+	if s.cmd != nil && s.cmd.Process != nil {
+		s.cmd.Process.Kill()
+		s.cmd.Wait()
+	}
+	s.Restarts++
+	if err := s.spawn(); err != nil {
+		s.Errors = append(s.Errors, "cannot restart solver: "+err.Error())
+		return
+	}
+	old := s.noHist
+	s.noHist = true
+	for _, l := range s.hist {
+		s.send(l)
+	}
+	s.noHist = old
+}
+
+// watchdog kills the process when a query runs far past the solver's own
+// (soft) timeout, which z3 does not honour inside some tactics.
+func (s *Solver) watchdog() *time.Timer {
+	d := time.Duration(2*s.TimeoutMs)*time.Millisecond + 10*time.Second
+	cmd := s.cmd
+	return time.AfterFunc(d, func() {
+		s.killed.Store(true)
+		if cmd != nil && cmd.Process != nil {
+			cmd.Process.Kill()
+		}
+	})
 }
 
 func (s *Solver) send(line string) {
@@ -214,11 +265,13 @@ func (s *Solver) readResult() Result {
 			return Unsat
 		case line == "unknown" || line == "timeout":
 			return Unknown
+		case strings.HasPrefix(line, "(error") && strings.Contains(line, "solver died"):
+			// killed by the watchdog or crashed: the query is undecided here (the
+			// fallback solvers get it), the process is replaced by the caller
+			s.dead = true
+			return Unknown
 		case strings.HasPrefix(line, "(error"):
 			s.Errors = append(s.Errors, line)
-			if strings.Contains(line, "solver died") {
-				return Unknown
-			}
 			// keep reading: the verdict line still follows, but it is not trusted
 			r := s.readResult()
 			_ = r
@@ -245,10 +298,18 @@ func (s *Solver) CheckWith(extra ...*Term) Result {
 	for _, r := range refs {
 		s.send("(assert " + r + ")")
 	}
+	wd := s.watchdog()
 	s.send("(check-sat)")
 	res := s.readResult()
-	s.send("(pop 1)")
-	s.noHist = false
+	wd.Stop()
+	if s.dead {
+		s.killed.Store(false)
+		s.noHist = false
+		s.respawn()
+	} else {
+		s.send("(pop 1)")
+		s.noHist = false
+	}
 	if res == Unknown {
 		res, _ = s.fallback(refs, nil)
 	}
@@ -278,11 +339,20 @@ func (s *Solver) ModelWith(extra []*Term, want []*Term) (Result, []*big.Int) {
 	for _, r := range refs {
 		s.send("(assert " + r + ")")
 	}
+	wd := s.watchdog()
 	s.send("(check-sat)")
 	res := s.readResult()
+	wd.Stop()
 	var vals []*big.Int
 	if res == Unknown {
-		s.send("(pop 1)")
+		if s.dead {
+			s.killed.Store(false)
+			s.noHist = false
+			s.respawn()
+			s.noHist = true
+		} else {
+			s.send("(pop 1)")
+		}
 		res, vals = s.fallback(refs, wrefs)
 		el := time.Since(start)
 		s.Time += el
